@@ -336,6 +336,8 @@ class Hydrodynamics:
             tmFromvpsq,
             bounds=[self.Tnucl, self.TMaxHydro],
             method="Bounded",
+            # scipy's default xatol=1e-5 is an absolute temperature tolerance
+            options={"xatol": 1e-7 * self.Tnucl},
         )
 
         if minimizeResult.success:
